@@ -106,6 +106,7 @@ fn collect_names(p: &Program) -> Vec<String> {
     };
     fn pat(p: &Pat, add: &mut dyn FnMut(&str)) {
         match p {
+            Pat::Var(v) if v == "_" => {}
             Pat::Var(v) => add(v),
             Pat::Tup(v) => v.iter().for_each(|x| pat(x, add)),
             Pat::Rec(v) => v.iter().for_each(|(_, b)| add(b)),
